@@ -96,14 +96,33 @@ def commonClass : List Id → Option SortClass
       | some a, some b => if a = b then some a else none
       | _, _ => none
 
+/-- `not (b < a)` inside the numeric class -/
+def leNum {α : Type} (a b : Id × α) : Bool := decide (a.1.numKey ≤ b.1.numKey)
+
+/-- `not (b < a)` inside the string class -/
+def leStr {α : Type} (a b : Id × α) : Bool :=
+  match a.1, b.1 with
+  | .str s, .str t => !strLt t s
+  | _, _ => true
+
+/-- stable insertion sort (structural, so it evaluates under `decide`): `x` goes in front of the
+    first element it is `le` to -/
+def insertBy {α : Type} (le : α → α → Bool) (x : α) : List α → List α
+  | [] => [x]
+  | y :: ys => if le x y then x :: y :: ys else y :: insertBy le x ys
+
+def insSort {α : Type} (le : α → α → Bool) : List α → List α
+  | [] => []
+  | x :: xs => insertBy le x (insSort le xs)
+
 /-- `sorted(pairs, key=lambda t: t[0])`.
 
     A list of fewer than two elements is returned as is (no comparison is made).  Otherwise
     every element takes part in at least one comparison with another one and the comparisons
     made connect all elements (a sorting algorithm cannot otherwise know the order), so some `<`
     is evaluated across two classes, or on a `None`/list/dict, exactly when the ids are not all
-    in one class: `TypeError` (explicit counterpart `insSorted` below, proved equivalent on
-    the error condition).  Inside a class the sort is stable: `List.mergeSort`. -/
+    in one class: `TypeError`.  Inside a class the sort is stable (`insSort`; the order among
+    equal keys is never observable: a tuple with equal ids matches no key). -/
 def pySorted {α : Type} (ps : List (Id × α)) : Except PyExc (List (Id × α)) :=
   match ps with
   | [] => .ok []
@@ -111,11 +130,7 @@ def pySorted {α : Type} (ps : List (Id × α)) : Except PyExc (List (Id × α))
   | _ =>
     match commonClass (ps.map Prod.fst) with
     | none => .error .typeError
-    | some .num => .ok (ps.mergeSort fun a b => decide (a.1.numKey ≤ b.1.numKey))
-    | some .str =>
-        .ok (ps.mergeSort fun a b =>
-          match a.1, b.1 with
-          | .str s, .str t => !strLt t s
-          | _, _ => true)
+    | some .num => .ok (insSort leNum ps)
+    | some .str => .ok (insSort leStr ps)
 
 end Aiorpcx.C01
